@@ -24,6 +24,9 @@ TARGETS = {
     "w_rc_gcc": dict(cxx="g++", std="c++17", flags=SAN, srcs=lambda: W_sources("g++") + [dict(src="world/w_main.cpp")], libs="-lrapidcheck"),
     "w_fuzz": dict(cxx="clang++", std="c++17", flags="-fsanitize=fuzzer-no-link,address,undefined -fno-sanitize-recover=undefined",
                    srcs=lambda: W_sources("clang++") + [dict(src="world/w_fuzz.cpp")], libs="", link_flags="-fsanitize=fuzzer,address,undefined"),
+    # single-TU rapidcheck engines
+    "s_rc": dict(cxx="clang++", std="c++17", flags=SAN, srcs=[dict(src="printing/s_main.cpp")], libs="-lrapidcheck"),
+    "s_rc_gcc": dict(cxx="g++", std="c++17", flags=SAN, srcs=[dict(src="printing/s_main.cpp")], libs="-lrapidcheck"),
     # engine T (threads): same source, ThreadSanitizer build (mode A) and ASan build (modes B, E)
     "t_tsan": dict(cxx="clang++", std="c++17", flags="-fsanitize=thread", srcs=[dict(src="threads/t_main.cpp")], libs="-lrapidcheck"),
     "t_tsan_gcc": dict(cxx="g++", std="c++17", flags="-fsanitize=thread", srcs=[dict(src="threads/t_main.cpp")], libs="-lrapidcheck"),
